@@ -239,7 +239,7 @@ pub fn build(base: &Module, salt: u64) -> Scenario {
     // proper prefix of the next sibling's, 2 = they differ in the last arc only
     let oid_scheme = r.below(3);
     for (k, vas) in sib_assigns.iter().enumerate() {
-        let mode = r.below(3); // 0 name only, 1 OID only (name in the import differs), 2 both
+        let mode = r.below(4); // 0 name only, 1 OID only (name in the import differs), 2 both, 3 name matches but the import names another version arc of the OID
         let name = format!("Sibling{k}");
         let arc = |name: Option<&str>, number: u64| OidComp { name: name.map(|n| n.to_string()), number: Some(number) };
         let oid = match oid_scheme {
@@ -259,8 +259,13 @@ pub fn build(base: &Module, salt: u64) -> Scenario {
             sm.body.push(Assignment::Type(Def { name: "Unrelated".into(), tag: None, ty: Type::Boolean }));
         }
         if !vas.is_empty() {
-            imports.push(Import { symbols: vas.iter().map(|v| v.name.clone()).collect(), from: if mode == 1 { format!("Renamed{k}") } else { name.clone() }, oid: if mode >= 1 { Some(oid) } else { None } });
-            placement.push(format!("import{k}:{}", ["by-name", "by-oid", "by-name-and-oid"][mode as usize]));
+            let mut import_oid = oid;
+            if mode == 3 {
+                // "matched by name or object identifier": the name alone identifies the loaded module
+                import_oid.push(arc(Some("version"), 99));
+            }
+            imports.push(Import { symbols: vas.iter().map(|v| v.name.clone()).collect(), from: if mode == 1 { format!("Renamed{k}") } else { name.clone() }, oid: if mode >= 1 { Some(import_oid) } else { None } });
+            placement.push(format!("import{k}:{}", ["by-name", "by-oid", "by-name-and-oid", "by-name-with-other-oid"][mode as usize]));
         }
         siblings.push(sm);
     }
@@ -350,7 +355,7 @@ pub fn build(base: &Module, salt: u64) -> Scenario {
     Scenario { texts, main_name: "Main-Unit".into(), literal, negative, sites_replaced: assigns.len(), placement }
 }
 
-const RULE: &str = "a literal-only module A (roundtrip profile, proptest; in every fourth case some ranges / sizes are made degenerate `n..n` with and without extension marker) is turned into a referencing variant: a random subset of its literal sites (INTEGER bounds, SIZE bounds, DEFAULT values of INTEGER / BOOLEAN / strings) is replaced by fresh value references whose assignments are placed before the use, after the use, or in one of 1..3 sibling modules imported by name only, by OID only (the name in the import differs) or by both - the siblings' OIDs differ in the second arc, or in the last arc only, or each is a proper prefix of the next; every load order of all modules into MultiModuleResolver (and Model::try_resolve when there is only one module). Oracle: the resolved definitions of the referencing module == those of the literal module (asn1rs's own PartialEq) for every load order. In every third scenario the main module also has a SEQUENCE whose DEFAULT components are typed by references that cannot be looked up (defined nowhere, or imported from a module that is not loaded): the literal variant resolves, so the referencing one must. Negative variants (must give Err for every load order): assignment missing everywhere; import removed while a same-named assignment exists in a loaded, non-imported sibling; exporting module not loaded; BOOLEAN / character string / hstring / bstring value assigned where a range or size bound needs an integer. Non-trivial: >= 1 site replaced; distinct = hash of (texts, negative kind).";
+const RULE: &str = "a literal-only module A (roundtrip profile, proptest; in every fourth case some ranges / sizes are made degenerate `n..n` with and without extension marker) is turned into a referencing variant: a random subset of its literal sites (INTEGER bounds, SIZE bounds, DEFAULT values of INTEGER / BOOLEAN / strings) is replaced by fresh value references whose assignments are placed before the use, after the use, or in one of 1..3 sibling modules imported by name only, by OID only (the name in the import differs), by both, or by name with an OID that has a further version arc - the siblings' OIDs differ in the second arc, or in the last arc only, or each is a proper prefix of the next; every load order of all modules into MultiModuleResolver (and Model::try_resolve when there is only one module). Oracle: the resolved definitions of the referencing module == those of the literal module (asn1rs's own PartialEq) for every load order. In every third scenario the main module also has a SEQUENCE whose DEFAULT components are typed by references that cannot be looked up (defined nowhere, or imported from a module that is not loaded): the literal variant resolves, so the referencing one must. Negative variants (must give Err for every load order): assignment missing everywhere; import removed while a same-named assignment exists in a loaded, non-imported sibling; exporting module not loaded; BOOLEAN / character string / hstring / bstring value assigned where a range or size bound needs an integer. Non-trivial: >= 1 site replaced; distinct = hash of (texts, negative kind).";
 
 pub fn run(ctx: Ctx) -> i32 {
     let report = Report::new(ctx.clone(), RULE);
@@ -423,7 +428,7 @@ pub fn run(ctx: Ctx) -> i32 {
         });
     });
     dead_workers_are_infra(&report, &bad);
-    for must in ["resolved-equal", "negative-rejected", "placement:local-before", "placement:local-after", "placement:sibling", "import:by-name", "import:by-oid", "import:by-name-and-oid", "negative:missing-assignment", "negative:import-removed", "negative:exporter-not-loaded", "negative:non-integer-for-bound"] {
+    for must in ["resolved-equal", "negative-rejected", "placement:local-before", "placement:local-after", "placement:sibling", "import:by-name", "import:by-oid", "import:by-name-and-oid", "import:by-name-with-other-oid", "negative:missing-assignment", "negative:import-removed", "negative:exporter-not-loaded", "negative:non-integer-for-bound"] {
         if report.class_count(must) == 0 && report.violation_count() == 0 {
             report.infra(&format!("generator fault: class {must} never generated"));
         }
